@@ -1,3 +1,58 @@
 import Driver.Common
-/-! Driver for property C19 (stub: the model for this property is not built yet). -/
-def main : IO Unit := Driver.run (fun (s : Unit) _ => (s, "unimplemented")) ()
+import Driver.Val
+import TxdbusModel.Sig.Split
+import TxdbusModel.Wire.Infer
+/-!
+Driver for property C19.  One operation per line:
+
+  split <strhex>   ->  `ok <n> <strhex>*n`                       list(genCompleteTypes(sig))
+                       `err <TypeError|RuntimeError> <n> <strhex>*n`   the exception, after the n pieces a lazy
+                                                                 consumer saw before it
+  first <strhex>   ->  `ok <strhex piece> <strhex rest>` | `err <TypeError|RuntimeError|StopIteration>`   next(genCompleteTypes(sig));
+                       StopIteration only for the empty signature (exhausted generator), inside the body PEP 479 makes it RuntimeError
+  infer <value>    ->  `ok <strhex>` | `err MarshallingError`     sigFromPy(value); value in the syntax of Driver/Val.lean
+  nargs <strhex>   ->  `ok <n>` | `err <TypeError|RuntimeError>` the argument count interface.py derives from a signature
+-/
+open Txdbus Driver
+
+def splitErrName : SplitErr → String
+  | .typeError => "TypeError"
+  | .stopIteration => "RuntimeError"     -- PEP 479: StopIteration inside a generator body
+
+def piecesStr (ps : List (List Char)) : String :=
+  toString ps.length ++ String.join (ps.map fun p => " " ++ charsToHex p)
+
+def step (line : String) : String :=
+  match words line with
+  | ["split", h] =>
+    match hexToChars? h with
+    | none => "bad-input"
+    | some s =>
+      match genCompleteTypes s with
+      | .ok ps => "ok " ++ piecesStr ps
+      | .error e => "err " ++ splitErrName e ++ " " ++ piecesStr (lazyPieces s).1
+  | ["first", h] =>
+    match hexToChars? h with
+    | none => "bad-input"
+    | some s =>
+      match firstType s with
+      | .ok (ct, rest) => "ok " ++ charsToHex ct ++ " " ++ charsToHex rest
+      | .error .typeError => "err TypeError"
+      | .error .stopIteration => if s.isEmpty then "err StopIteration" else "err RuntimeError"
+  | ["nargs", h] =>
+    match hexToChars? h with
+    | none => "bad-input"
+    | some s =>
+      match countCompleteTypes s with
+      | .ok n => "ok " ++ toString n
+      | .error e => "err " ++ splitErrName e
+  | "infer" :: toks =>
+    match parseVal toks with
+    | some (v, []) =>
+      match sigFromPy v with
+      | .ok s => "ok " ++ charsToHex s
+      | .error e => "err " ++ pyErrName e
+    | _ => "bad-input"
+  | _ => "bad-input"
+
+def main : IO Unit := Driver.run (fun (s : Unit) line => (s, step line)) ()
